@@ -67,7 +67,7 @@ def runner(prop, fam, tier, seed, replay):
                 if m:
                     for tag in re.findall(r'"([^"]+)"', m.group(2)):
                         cover[m.group(1)][tag] += 1
-        evp = os.path.join(vcheck.VERIF, "evidence", prop + ".json")
+        evp = vcheck.evidence_path(prop)
         if os.path.exists(evp) and cover:
             ev = json.load(open(evp))
             ev["coverage"]["antecedents_exercised"] = {k: dict(sorted(v.items())) for k, v in sorted(cover.items())}
